@@ -16,7 +16,7 @@ _P = "TornadoModel.C12."
 THEOREMS = [_P + n for n in [
     "wf_brun", "abs_append", "size_eq_abs", "peek_prefix", "abs_advance", "buffer_refines_fifo",
     "sent_is_concat", "sent_prefix_of_accepted", "drained_all_sent", "future_after_bytes", "futures_in_order",
-    "refusal_no_side_effect", "refusal_iff_exceeds", "sendLoop_advance_ok",
+    "refusal_no_side_effect", "refusal_iff_exceeds", "sendLoop_advance_ok", "indices_meaning",
 ]]
 TRUSTED = [
     "collections.deque, bytearray (+=, del b[:n]), memoryview slicing/cast as modelled in C12/Model.lean",
@@ -49,7 +49,7 @@ CLAUSES = {
         "buffer_refines_fifo (all sequences, unbounded) + wf_brun; tie: exhaustive depth-3/4 enumeration",
     "bytes or memoryviews of any size": "tie only: memoryview formats/offsets are exercised by the correspondence stream",
 }
-PARALLEL = True
+PARALLEL = False      # 3000 cases take ~6 s serially; forking a pool costs more than it saves
 CASE_TIMEOUT = 30
 LEVEL_NOTE = "model of _StreamBuffer + write/_handle_write; all theorems universally quantified over op sequences and send scripts"
 
@@ -104,15 +104,11 @@ def _drain_ops(rng, L):
 
 def _enum_buf(depth):
     """every sequence of length `depth` over: append {0,1,2047,2048,2049}, peek {1,5000},
-    advance {1,2047,2048,L,L+1} (L = current length), followed by a full drain."""
+    advance {1,2047,2048,L,L+1} (L = current length), followed by one full peek."""
     def rec(prefix, L, d):
         if d == 0:
-            tail, l = [], L
-            while l > 0:
-                k = min(l, 3000)
-                tail += [["p", BIG], ["v", k]]
-                l -= k
-            yield {"kind": "buf", "ops": prefix + tail + [["p", 1]], "enum": True}
+            # the remaining contents are compared as a whole at the end of the case ("rest")
+            yield {"kind": "buf", "ops": prefix + [["p", BIG]], "enum": True}
             return
         for i, n in enumerate([0, 1, 2047, 2048, 2049]):
             yield from rec(prefix + [["a", [(len(prefix) * 41 + i) % 256, n], "bytes"]], L + n, d - 1)
@@ -199,7 +195,7 @@ def _rand_stream(rng):
 def gen_cases(rng, tier):
     if tier == "quick":
         yield from _enum_buf(3)
-        nb, ns = 700, 1500
+        nb, ns = 500, 1200
     elif tier == "thorough":
         yield from _enum_buf(4)
         nb, ns = 8000, 30000
